@@ -121,7 +121,8 @@ def flat_paths(t, prefix=()):
     out = []
     for e in t:
         if e["k"]["t"] == "d":
-            out += flat_paths(e["k"]["ch"], tuple(prefix) + tuple(e["n"]))
+            # posixpath.join: an empty directory name adds nothing to the paths below it
+            out += flat_paths(e["k"]["ch"], tuple(prefix) if e["n"] == [""] else tuple(prefix) + tuple(e["n"]))
         else:
             out.append((tuple(prefix) + tuple(e["n"]), e["k"]))
     return out
@@ -282,7 +283,7 @@ def _exec_step(job, case, st, done_steps, res, head_tree):
     states, unsafe, prot = job["states"], job["unsafe"], job["prot"]
     op, tree = st["op"], st["tree"]
     links = _links_in_worktree(case) if os.path.isdir(case.W) else []
-    before = case.protected(include_config=(op != "CL"))
+    before = case.protected(include_config=(op != "CL"), stamp=True)
     outcome, exc = case.run(op, tree)
     after = case.protected(include_config=(op != "CL"))
     if op == "CL":
@@ -323,8 +324,17 @@ def _exec_step(job, case, st, done_steps, res, head_tree):
                 if c == ".git" and j == len(p) - 3 and j > 0 and fs[p].get("c") == "M":
                     continue        # the .git file of a submodule placeholder
                 if unsafe.get((c, prot["ntfs"], prot["hfs"]), c not in job["known_comps"]):
-                    viol.append({"sig": f"{SITE[op]}|UnsafeRefused|element {c!r} materialised ntfs={int(prot['ntfs'])} hfs={int(prot['hfs'])}",
-                                 "step": i, "what": f"{ENTRY[op]} materialised {'/'.join(p[2:])!r} after: {seqtxt}"})
+                    loc = os.path.join(os.fsencode(case.W), *[comp_bytes(x) for x in p[2:2 + j + 1]])
+                    mech = "direct"
+                    for _, real in links:
+                        if real == loc:
+                            mech = "final-symlink"
+                            break
+                        if (loc + b"/").startswith(real + b"/"):
+                            mech = "leading-symlink"
+                    viol.append({"sig": f"{SITE[op]}|UnsafeRefused|element {c!r} materialised ntfs={int(prot['ntfs'])} hfs={int(prot['hfs'])} via {mech}",
+                                 "step": i, "what": f"{ENTRY[op]} materialised {'/'.join(p[2:])!r} in: {seqtxt}"})
+                    break
     if outcome == "ok":
         ents = flat_paths(tree)
         if op == "AP":
@@ -512,3 +522,40 @@ def trace_line(tid, prot, obs):
             "steps": [{"op": o["op"], "tree": o["tree"], "res": o["res"],
                        "fs": [[p, node4(nd)] for p, nd in o["fs"]],
                        "idx": [[p, node4(nd)] for p, nd in (o["idx"] or [])]} for o in obs]}
+
+
+# --------------------------------------------------------------------------- self-test of the observation
+def selftest(scratch):
+    """The snapshot must see every kind of escape the property names (create / overwrite with the
+    same content / delete / chmod, outside the work tree and inside .git) and nothing else."""
+    from . import c17_real
+    root = os.path.join(scratch, f"selftest{os.getpid()}")
+    shutil.rmtree(root, ignore_errors=True)
+    case = c17_real.Case(root, {"ntfs": True, "hfs": False})
+    try:
+        git = os.path.join(case.W, ".git")
+        probes = [
+            ("overwrite outside, same content", lambda: open(os.path.join(case.p, "of"), "wb").write(b"A\n"), 1),
+            ("delete outside", lambda: os.unlink(os.path.join(case.p, "od", "e", "x")), 1),
+            ("create outside", lambda: open(os.path.join(case.top, "new"), "wb").write(b"x"), 1),
+            ("create above the model root", lambda: open(os.path.join(case.root, "u1", "new"), "wb").write(b"x"), 1),
+            ("chmod outside", lambda: os.chmod(os.path.join(case.p, "od", "x"), 0o6755), 1),
+            ("retarget outside link", lambda: (os.unlink(os.path.join(case.p, "ol")), os.symlink("od", os.path.join(case.p, "ol"))), 1),
+            ("overwrite .git/config, same content", lambda: open(os.path.join(git, "config"), "wb").write(case.cfg0), 1),
+            ("create .git/hooks/post-checkout", lambda: open(os.path.join(git, "hooks", "post-checkout"), "wb").write(b"#!/bin/sh\n"), 1),
+            ("create .git/x", lambda: os.symlink("config", os.path.join(git, "x")), 1),
+            ("legitimate: work tree file, index, HEAD, refs, objects", lambda: (
+                open(os.path.join(case.W, "f"), "wb").write(b"x"), open(os.path.join(git, "index"), "wb").write(b"x"),
+                open(os.path.join(git, "HEAD"), "ab").write(b""), open(os.path.join(git, "refs", "heads", "b"), "wb").write(b"x"),
+                os.makedirs(os.path.join(git, "objects", "aa"), exist_ok=True), open(os.path.join(git, "ORIG_HEAD"), "wb").write(b"x")), 0),
+        ]
+        for name, act, want in probes:
+            before = case.protected(stamp=True)
+            act()
+            got = len(_diff_protected(before, case.protected()))
+            if (got > 0) != (want > 0):
+                return f"snapshot self-test failed: {name}: {got} differences reported"
+        return None
+    finally:
+        case.close()
+        shutil.rmtree(root, ignore_errors=True)
